@@ -40,9 +40,9 @@ func NewArray(
 	size := 1
 	for i := len(dimensions) - 1; 0 <= i; i-- {
 		a.sizes[i] = size
-		if ArrayMaxDimension < dimensions[i] {
+		if dimensions[i] < 0 || ArrayMaxDimension < dimensions[i] {
 			TypePanic(NewScope(), 0, "dimension", Fixnum(dimensions[i]),
-				fmt.Sprintf("positive fixnum less than %d", ArrayMaxDimension))
+				fmt.Sprintf("non-negative fixnum less than %d", ArrayMaxDimension))
 		}
 		// The dimensions are each within the limit. So must their product,
 		// the number of elements, be.
